@@ -112,7 +112,9 @@ func ZZC11_next() {
 	if zzBool("mutating") {
 		method, noMirrors = "PUT", true
 	}
-	resp, err := c.Do(context.Background(), &Req{Host: zzUp, Method: method, Repository: "repo", Path: "manifests/tag", NoMirrors: noMirrors})
+	// requests that ask for errors to be ignored (anonymous mount, tag delete probe, referrers probe) set no back-off
+	ignoreErr := zzBool("ignore_err")
+	resp, err := c.Do(context.Background(), &Req{Host: zzUp, Method: method, Repository: "repo", Path: "manifests/tag", NoMirrors: noMirrors, IgnoreErr: ignoreErr})
 	zzReach("do_returned")
 	// (i) bounded attempts
 	zzAssert(len(net.calls) <= R+2, "attempts_bounded_by_retry_limit")
